@@ -470,8 +470,8 @@ Proof. intro H. cbn [compare_simple]. rewrite H. reflexivity. Qed.
 (* the shape each shape-validating comparer expects of the student input, read off the first sample *)
 Definition expected_shape (c : comparer) (params : list value) : option (list Z) :=
   match c, params with
-  | CmpEquality, [e] => Some (shape_of e)
-  | CmpEntry _, e :: _ => Some (shape_of e)
+  | CmpEquality _, [e] => Some (shape_of e)
+  | CmpEntry _ _, e :: _ => Some (shape_of e)
   | CmpLinear _, e :: _ => Some (shape_of e)
   | CmpEigen, [VMat m; VNum _] => Some [Z.of_nat (length m)]
   | CmpSpan, p :: _ => if same_length_vectors params then Some (shape_of p) else None
@@ -570,9 +570,9 @@ Proof.
   induction 1 as [|[e s] ss H _ IH]; [reflexivity|]. simpl in *. rewrite (validate_shape_right d s (shape_of e) H). exact IH.
 Qed.
 
-Lemma entry_cmp_valid_shape d tl pc ss :
+Lemma entry_cmp_valid_shape d tl pc tr ss :
   Forall (fun es => shape_eqb (shape_of (fst es)) (shape_of (snd es)) = true) ss ->
-  matrix_entry_cmp (Some d) tl pc ss = entry_credit pc (entry_summary tl ss).
+  matrix_entry_cmp (Some d) tl pc tr ss = entry_credit pc (entry_summary tl (map (fun es => (tr (fst es), tr (snd es))) ss)).
 Proof. intro H. unfold matrix_entry_cmp. rewrite (first_shape_error_none d ss H). reflexivity. Qed.
 
 (* regression inputs of the repaired defects (used by the Examples of Props/C16.v) *)
@@ -583,3 +583,13 @@ Definition lc_cplx_samples : list sample :=
   [ (VVec [(2, 0); (3, 0)], VVec [(3, 0); (3, 1)])
   ; (VVec [(4, 0); (1, 0)], VVec [(5, 0); (1, 1)])
   ; (VVec [(1, 0); (5, 0)], VVec [(2, 0); (5, 1)]) ].
+
+(* EqualityComparer on a submission of the right shape: the transform is applied to both sides, then within_tolerance *)
+Lemma equality_cmp_valid_shape d tl tr e s : shape_eqb (shape_of e) (shape_of s) = true ->
+  equality_cmp (Some d) tl tr e s = CBool (within tl (flat (tr e)) (flat (tr s))).
+Proof. intro H. unfold equality_cmp. rewrite (validate_shape_right d s (shape_of e) H). reflexivity. Qed.
+
+(* ... and on a submission of the wrong shape the transform is never consulted: same result for any two transforms *)
+Lemma equality_cmp_wrong_shape d tl tr tr' e s : shape_eqb (shape_of e) (shape_of s) = false ->
+  equality_cmp (Some d) tl tr e s = equality_cmp (Some d) tl tr' e s.
+Proof. intro H. unfold equality_cmp. rewrite (validate_shape_wrong d s (shape_of e) H). reflexivity. Qed.
